@@ -10,4 +10,230 @@ namespace Pelite
 /-- an outcome that is a value or an error: no panic, no unchecked out-of-bounds access, no hang -/
 def Out.Clean {α} (o : Out α) : Prop := (∃ a, o = .ok a) ∨ (∃ e, o = .err e)
 
+theorem Out.clean_ok {α} (a : α) : (Out.ok a).Clean := .inl ⟨a, rfl⟩
+theorem Out.clean_err {α} (e : Err) : (Out.err e : Out α).Clean := .inr ⟨e, rfl⟩
+
+theorem Out.Clean.ne_panic {α} {o : Out α} (h : o.Clean) (s : String) : o ≠ .panic s := by
+  rcases h with ⟨a, rfl⟩ | ⟨e, rfl⟩ <;> intro h <;> cases h
+theorem Out.Clean.ne_ub {α} {o : Out α} (h : o.Clean) (s : String) : o ≠ .ub s := by
+  rcases h with ⟨a, rfl⟩ | ⟨e, rfl⟩ <;> intro h <;> cases h
+theorem Out.Clean.ne_diverge {α} {o : Out α} (h : o.Clean) : o ≠ .diverge := by
+  rcases h with ⟨a, rfl⟩ | ⟨e, rfl⟩ <;> intro h <;> cases h
+
+theorem Out.clean_ite {α} {c : Prop} [Decidable c] {x y : Out α} (hx : x.Clean) (hy : y.Clean) :
+    (if c then x else y).Clean := by
+  split
+  · exact hx
+  · exact hy
+
+namespace Pe
+
+/-! ### the section loops -/
+
+theorem r2fSecs_clean (secs : List Sec) (rva : Nat) : (r2fSecs secs rva).Clean := by
+  induction secs with
+  | nil => exact Out.clean_err _
+  | cons s rest ih =>
+    unfold r2fSecs
+    dsimp only
+    refine Out.clean_ite ?_ ih
+    refine Out.clean_ite (Out.clean_err _) ?_
+    refine Out.clean_ite (Out.clean_ok _) ?_
+    exact Out.clean_ite (Out.clean_err _) (Out.clean_err _)
+
+theorem f2rSecs_clean (secs : List Sec) (fo : Nat) : (f2rSecs secs fo).Clean := by
+  induction secs with
+  | nil => exact Out.clean_err _
+  | cons s rest ih =>
+    unfold f2rSecs
+    dsimp only
+    refine Out.clean_ite ?_ ih
+    refine Out.clean_ite (Out.clean_err _) ?_
+    refine Out.clean_ite (Out.clean_ok _) ?_
+    exact Out.clean_ite (Out.clean_err _) (Out.clean_err _)
+
+theorem rangeFile_clean (size : Nat) (secs : List Sec) (rva min : Nat) :
+    (rangeFile size secs rva min).Clean := by
+  induction secs with
+  | nil => exact Out.clean_err _
+  | cons s rest ih =>
+    unfold rangeFile
+    dsimp only
+    refine Out.clean_ite ?_ ih
+    refine Out.clean_ite ?_ (Out.clean_err _)
+    refine Out.clean_ite (Out.clean_ok _) ?_
+    exact Out.clean_ite (Out.clean_err _) (Out.clean_err _)
+
+theorem fileTail_clean (img : Img) (secs : List Sec) (rva min align : Nat) :
+    (fileTail img secs rva min align).Clean := by
+  unfold fileTail
+  rcases rangeFile_clean img.bytes.size secs rva min with ⟨⟨o, l⟩, h⟩ | ⟨e, h⟩
+  · rw [h]
+    exact Out.clean_ite (Out.clean_ok _) (Out.clean_err _)
+  · rw [h]
+    exact Out.clean_err _
+
+/-! ### the four untyped primitives: clean, or the `aligned_to` debug assertion -/
+
+theorem sliceFile_shape (img : Img) (secs : List Sec) (rva min align : Nat) :
+    (sliceFile img secs rva min align).Clean ∨
+    (isPow2 align = false ∧ rva ≠ 0 ∧ sliceFile img secs rva min align = .panic "slice_file:aligned_to") := by
+  rw [sliceFile_eq_tail]
+  by_cases h0 : rva = 0
+  · rw [if_pos h0]; exact .inl (Out.clean_err _)
+  · rw [if_neg h0]
+    by_cases hp : isPow2 align = true
+    · rw [if_pos hp]
+      exact .inl (Out.clean_ite (fileTail_clean ..) (Out.clean_err _))
+    · rw [if_neg hp]
+      exact .inr ⟨by simpa using hp, h0, rfl⟩
+
+theorem sliceSection_shape (img : Img) (rva min align : Nat) :
+    (sliceSection img rva min align).Clean ∨
+    (isPow2 align = false ∧ rva ≠ 0 ∧ sliceSection img rva min align = .panic "slice_section:aligned_to") := by
+  rw [sliceSection_eq]
+  by_cases h0 : rva = 0
+  · rw [if_pos h0]; exact .inl (Out.clean_err _)
+  · rw [if_neg h0]
+    by_cases hp : isPow2 align = true
+    · rw [if_pos hp]
+      exact .inl (Out.clean_ite (Out.clean_ite (Out.clean_ok _) (Out.clean_err _)) (Out.clean_err _))
+    · rw [if_neg hp]
+      exact .inr ⟨by simpa using hp, h0, rfl⟩
+
+theorem readFile_shape (img : Img) (secs : List Sec) (B soi va min align : Nat) :
+    (readFile img secs B soi va min align).Clean ∨
+    (isPow2 align = false ∧ readFile img secs B soi va min align = .panic "read_file:aligned_to") := by
+  rw [readFile_eq_tail]
+  by_cases h0 : va = 0
+  · rw [if_pos h0]; exact .inl (Out.clean_err _)
+  · rw [if_neg h0]
+    by_cases hb : va < B ∨ va - B > soi
+    · rw [if_pos hb]; exact .inl (Out.clean_err _)
+    · rw [if_neg hb]
+      by_cases hp : isPow2 align = true
+      · rw [if_pos hp]
+        exact .inl (Out.clean_ite (fileTail_clean ..) (Out.clean_err _))
+      · rw [if_neg hp]
+        exact .inr ⟨by simpa using hp, rfl⟩
+
+theorem readSection_shape (img : Img) (B soi va min align : Nat) :
+    (readSection img B soi va min align).Clean ∨
+    (isPow2 align = false ∧ readSection img B soi va min align = .panic "read_section:aligned_to") := by
+  rw [readSection_eq]
+  by_cases h0 : va = 0
+  · rw [if_pos h0]; exact .inl (Out.clean_err _)
+  · rw [if_neg h0]
+    by_cases hb : va < B ∨ va - B > soi
+    · rw [if_pos hb]; exact .inl (Out.clean_err _)
+    · rw [if_neg hb]
+      by_cases hp : isPow2 align = true
+      · rw [if_pos hp]
+        exact .inl (Out.clean_ite (Out.clean_ite (Out.clean_ok _) (Out.clean_err _)) (Out.clean_err _))
+      · rw [if_neg hp]
+        exact .inr ⟨by simpa using hp, rfl⟩
+
+/-- `slice`: a value, an error, or — only for a non-power-of-two alignment on a non-null rva — the
+`debug_assert!` of `aligned_to` -/
+theorem View.slice_shape (v : View) (rva min align : Nat) :
+    (v.slice rva min align).Clean ∨
+    (isPow2 align = false ∧ rva ≠ 0 ∧ ∃ s, v.slice rva min align = .panic s) := by
+  unfold View.slice
+  cases v.kind
+  · rcases sliceFile_shape v.img v.secs rva min align with h | ⟨h1, h2, h3⟩
+    · exact .inl h
+    · exact .inr ⟨h1, h2, _, h3⟩
+  · rcases sliceSection_shape v.img rva min align with h | ⟨h1, h2, h3⟩
+    · exact .inl h
+    · exact .inr ⟨h1, h2, _, h3⟩
+
+theorem View.read_shape (v : View) (va min align : Nat) :
+    (v.read va min align).Clean ∨ (isPow2 align = false ∧ ∃ s, v.read va min align = .panic s) := by
+  unfold View.read
+  cases v.kind
+  · rcases readFile_shape v.img v.secs v.imageBase (sizeOfImage v.b) va min align with h | ⟨h1, h3⟩
+    · exact .inl h
+    · exact .inr ⟨h1, _, h3⟩
+  · rcases readSection_shape v.img v.imageBase (sizeOfImage v.b) va min align with h | ⟨h1, h3⟩
+    · exact .inl h
+    · exact .inr ⟨h1, _, h3⟩
+
+theorem View.at_shape (v : View) (a : Addr) (min align : Nat) :
+    (v.at a min align).Clean ∨ (isPow2 align = false ∧ ∃ s, v.at a min align = .panic s) := by
+  cases a with
+  | rva r =>
+    rcases v.slice_shape r min align with h | ⟨h1, _, h3⟩
+    · exact .inl h
+    · exact .inr ⟨h1, h3⟩
+  | va x => exact v.read_shape x min align
+
+/-- `slice` / `read` with a power-of-two alignment: a value or an error -/
+theorem View.at_clean (v : View) (a : Addr) (min align : Nat) (hp : isPow2 align = true) :
+    (v.at a min align).Clean := by
+  rcases v.at_shape a min align with h | ⟨h1, _⟩
+  · exact h
+  · rw [hp] at h1; cases h1
+
+theorem View.at_ne_ub (v : View) (a : Addr) (min align : Nat) (s : String) : v.at a min align ≠ .ub s := by
+  rcases v.at_shape a min align with h | ⟨_, s', h⟩
+  · exact h.ne_ub s
+  · rw [h]; intro h'; cases h'
+
+theorem View.at_ne_diverge (v : View) (a : Addr) (min align : Nat) : v.at a min align ≠ .diverge := by
+  rcases v.at_shape a min align with h | ⟨_, s', h⟩
+  · exact h.ne_diverge
+  · rw [h]; intro h'; cases h'
+
+theorem isPow2_one : isPow2 1 = true := by decide
+
+/-! ### the sentinel loop -/
+
+theorem sliceFLoop_clean {b : Bytes} {off blen size : Nat} {stop : Nat → Bool} (hs : 1 ≤ size) :
+    ∀ (fuel len : Nat), blen + 2 ≤ fuel + len → len ≤ blen + 1 →
+      (sliceFLoop b off blen size stop fuel len).Clean := by
+  intro fuel
+  induction fuel with
+  | zero => intro len h1 h2; omega
+  | succ fuel ih =>
+    intro len h1 h2
+    rw [sliceFLoop_succ]
+    by_cases hb : len * size + size > blen
+    · rw [if_pos hb]; exact Out.clean_err _
+    · rw [if_neg hb]
+      have hle : (len + 1) * size ≤ blen := by rw [Nat.succ_mul]; omega
+      have hle' : len + 1 ≤ (len + 1) * size := Nat.le_mul_of_pos_right _ hs
+      by_cases hst : stop (leN b (off + len * size) size) = true
+      · rw [if_pos hst]; exact Out.clean_ok _
+      · rw [if_neg hst]
+        exact ih (len + 1) (by omega) (by omega)
+
+end Pe
+
+/-! ### strings: strictly ascending non-empty runs inside `N` bytes are at most `N` -/
+
+theorem Strings.length_le_of_pairwise (N : Nat) : ∀ (fs : List Strings.Found) (lo : Nat),
+    (∀ f ∈ fs, lo ≤ f.start ∧ 1 ≤ f.len ∧ f.start + f.len ≤ N) →
+    fs.Pairwise (fun a b => a.start + a.len < b.start) → fs.length ≤ N - lo := by
+  intro fs
+  induction fs with
+  | nil => intro lo _ _; simp
+  | cons f fs ih =>
+    intro lo hall hp
+    rw [List.pairwise_cons] at hp
+    have hf := hall f (List.mem_cons_self ..)
+    have := ih (lo + 1) (fun g hg => by
+      have h1 := hall g (List.mem_cons_of_mem _ hg)
+      have h2 := hp.1 g hg
+      omega) hp.2
+    simp only [List.length_cons]
+    omega
+
+/-! ### relocations: entry count of a block -/
+
+theorem Relocs.nwords_le {data : Bytes} {b : Relocs.Block} (hmem : b ∈ Relocs.blocks data) :
+    2 * b.nwords ≤ data.size := by
+  obtain ⟨o, -, -, ho8, rfl⟩ := Relocs.mem_blocksFrom (off := 0) (by rfl) hmem
+  simp only [Relocs.blockAt]
+  omega
+
 end Pelite
